@@ -247,7 +247,8 @@ PROPS["C06"] = {
     "skeleton_fns": SUP_STATE + ["supervisor_PIDZero_Shutdown", "supervisor_PIDZero_startRunnable", "supervisor_PIDZero_reloadAllRunnables"],
     "lean_modules": ["GoSup.Props.C06"],
     "theorems": ["GoSup.Props.C06.c06_converges_partial", "GoSup.Props.C06.c06_snapshot_partial", "GoSup.Props.C06.c06_dedup",
-                 "GoSup.Props.C06.c06_after_exit", "GoSup.Props.C06.c06_store_is_last_word", "GoSup.Props.C06.c06_close_once",
+                 "GoSup.Props.C06.c06_after_exit", "GoSup.Props.C06.c06_store_is_last_word", "GoSup.Props.C06.c06_reload_store_broadcasts",
+                 "GoSup.Props.C06.c06_close_once",
                  "GoSup.Props.C06.c06_f1_pinned_late_subscription", "GoSup.Props.C06.c06_stale_store"],
     "ties": [],
     "legs": [{"name": "statemap", "cmd": "statemap", "panic_is_failure": True}],
